@@ -30,16 +30,17 @@ def build(case):
     w, h, d = int(case["w"]), int(case.get("h", 0)), int(case.get("d", 0))
     if min(w, h, d) < 0:
         raise InvalidCase("negative extent")
+    wrap = bool(case.get("wrap"))           # cell addressing does not depend on the world being toroidal
     if kind == "line":
         if w < 1:
             raise InvalidCase("line width")
-        return LineWorld(m, w), (w, 0, 0)
+        return LineWorld(m, w, wrap_env=wrap), (w, 0, 0)
     if kind == "grid":
         if w < 1 or h < 1:
             raise InvalidCase("grid extents")
-        return GridWorld(m, w, h), (w, h, 0)
+        return GridWorld(m, w, h, wrap_env=wrap), (w, h, 0)
     if kind == "discrete":
-        return DiscreteWorld(m, w, h, d), (w, h, d)
+        return DiscreteWorld(m, w, h, d, wrap_env=wrap), (w, h, d)
     raise InvalidCase(kind)
 
 
@@ -99,24 +100,25 @@ def run_case(case):
         except Exception as e:
             raise Violation("outside-wrong-error", f"{case}: get_cell{args} raised {type(e).__name__}: {e}")
         raise Violation("outside-accepted", f"{case}: get_cell{args} returned row {row.name} instead of raising IndexError")
-    labels = [f"zero-axes-{''.join('0' if e == 0 else 'n' for e in (w, h, d))}", "cubic" if len({ew, eh, ed}) == 1 else "non-cubic", kind]
+    labels = (["wrap_env"] if case.get("wrap") else []) + [f"zero-axes-{''.join('0' if e == 0 else 'n' for e in (w, h, d))}", "cubic" if len({ew, eh, ed}) == 1 else "non-cubic", kind]
     return {"nontrivial": ncells >= 2, "labels": labels}
 
 
 def strategy(tier):
     ext = lambda n: wone_of(st.just(0), st.integers(1, n))
-    disc = st.builds(lambda w, h, d: {"kind": "discrete", "w": w, "h": h, "d": d}, ext(12), ext(10), ext(8))
-    line = st.builds(lambda w: {"kind": "line", "w": w}, st.integers(1, 60))
-    grid = st.builds(lambda w, h: {"kind": "grid", "w": w, "h": h}, st.integers(1, 14), st.integers(1, 12))
+    disc = st.builds(lambda w, h, d, wr: {"kind": "discrete", "w": w, "h": h, "d": d, "wrap": wr}, ext(12), ext(10), ext(8), st.booleans())
+    line = st.builds(lambda w, wr: {"kind": "line", "w": w, "wrap": wr}, st.integers(1, 60), st.booleans())
+    grid = st.builds(lambda w, h, wr: {"kind": "grid", "w": w, "h": h, "wrap": wr}, st.integers(1, 14), st.integers(1, 12), st.booleans())
     return wone_of(disc, disc, disc, line, grid)
 
 
 def exhaustive(tier):
     n = 3 if tier == "quick" else 5
     m = 4 if tier == "quick" else 6
-    for w, h, d in itertools.product(range(n + 1), repeat=3):
-        yield {"kind": "discrete", "w": w, "h": h, "d": d}
-    for w in range(1, m + 1):
-        yield {"kind": "line", "w": w}
-    for w, h in itertools.product(range(1, m + 1), repeat=2):
-        yield {"kind": "grid", "w": w, "h": h}
+    for wrap in (False, True):
+        for w, h, d in itertools.product(range(n + 1), repeat=3):
+            yield {"kind": "discrete", "w": w, "h": h, "d": d, "wrap": wrap}
+        for w in range(1, m + 1):
+            yield {"kind": "line", "w": w, "wrap": wrap}
+        for w, h in itertools.product(range(1, m + 1), repeat=2):
+            yield {"kind": "grid", "w": w, "h": h, "wrap": wrap}
